@@ -2,10 +2,12 @@
   C17 — the protected-epoch list handed to a guard holder is its own and stable.
   Proved: the vector published for an epoch `e` (by the forward that made `e` current) is strictly
   descending, starts with `e` and contains `e − 1`; the lookup of an epoch in the chain returns the
-  vector written for it.  The unrestricted statement is false on the pinned tree (known finding F6,
+  vector written for it; for sequential histories (`Proofs/EpochHist.lean`) the vector of every live guard
+  stays available and unchanged through any number of forwards, node creations and retirements.
+  The unrestricted statement is false on the pinned tree (known finding F6,
   `findings/F6_enter_epoch_stall.scen`): `EnterEpoch` publishes the epoch it read in a second step.
 -/
-import CppUtil.Proofs.EpochSeq
+import CppUtil.Proofs.EpochHist
 import CppUtil.Gen.Thread
 
 namespace CppUtil.Props
@@ -46,5 +48,29 @@ theorem c17_read_back (C : Consts) (e : Nat) (v : List Nat) (nodes : List PNode)
         simp at this ⊢
         exact this
       simp [List.find?_append, hnone]
+
+/-- **sequential histories** (no stall inside `CreateEpochGuard`, coordinator not concurrent): at every
+    point of every history, for every live guard (pinned epoch `p`) and for the current epoch, the lookup
+    finds the vector published when `p` became current; that vector has the required shape -/
+theorem c17_sequential_available (ops : List SeqOp) (s : SeqSt)
+    (h : seqRun Gen.epochConsts (seqInit Gen.epochConsts) ops = some s) (p : Nat) (hp : p = s.cur ∨ p ∈ s.pins) :
+    getList Gen.epochConsts p s.nodes = some (s.pub p) ∧
+    (s.pub p).head? = some p ∧ Desc (s.pub p) ∧ (Gen.epochConsts.kInitialEpoch < p → p - 1 ∈ s.pub p) := by
+  have hG : GoodConsts Gen.epochConsts := ⟨by decide, by decide, by decide⟩
+  have hI := sinv_reachable _ hG ops s h
+  refine ⟨pinned_list_available _ s hI p hp, ?_⟩
+  have hb : Gen.epochConsts.kInitialEpoch ≤ p ∧ p ≤ s.cur := by
+    rcases hp with rfl | hp
+    · exact ⟨hI.curge, Nat.le_refl _⟩
+    · exact ⟨(hI.pins p hp).2, (hI.pins p hp).1⟩
+  exact hI.shape p hb.1 hb.2
+
+/-- … and no later operation (creation or destruction of other guards, any number of forwards with node
+    creation and retirement) changes it: the vector of an epoch is written once -/
+theorem c17_sequential_stable (ops : List SeqOp) (s : SeqSt)
+    (h : seqRun Gen.epochConsts (seqInit Gen.epochConsts) ops = some s) (op : SeqOp) (s' : SeqSt)
+    (hs : seqStep Gen.epochConsts s op = some s') : ∀ e, e ≤ s.cur → s'.pub e = s.pub e := by
+  have hG : GoodConsts Gen.epochConsts := ⟨by decide, by decide, by decide⟩
+  exact pub_stable _ hG s (sinv_reachable _ hG ops s h) op s' hs
 
 end CppUtil.Props
